@@ -762,12 +762,19 @@ pub fn run_c13(tier: Tier) -> ! {
                 }
                 for divs in [vec![16i64], vec![8], vec![16, 8]] {
                     for slot_bits in [100u16, 300] {
-                        let mut sc = Scenario { addrs: addrs.clone(), hsa: 6, gap: 1, baud: 1, slot_bits, ttr, divs: divs.clone(), phases: vec![0, 1, 2], loads: load.clone(), late: vec![], responders: vec![(40, 11), (41, slot_bits as u32 - 33), (42, 0)] };
-                        if !sc.inside_envelope() {
-                            continue;
+                        // equal poll phases (all stations polled at the same instants): thorough everywhere,
+                        // quick on the TTR-256 configurations
+                        for phases in [vec![0i64, 1, 2], vec![0]] {
+                            if phases.len() == 1 && (addrs.len() == 1 || (tier == Tier::Quick && ttr != Some(256))) {
+                                continue;
+                            }
+                            let mut sc = Scenario { addrs: addrs.clone(), hsa: 6, gap: 1, baud: 1, slot_bits, ttr, divs: divs.clone(), phases, loads: load.clone(), late: vec![], responders: vec![(40, 11), (41, slot_bits as u32 - 33), (42, 0)] };
+                            if !sc.inside_envelope() {
+                                continue;
+                            }
+                            sc.gap = if ttr == Some(2000) { 2 } else { 1 };
+                            scenarios.push(sc);
                         }
-                        sc.gap = if ttr == Some(2000) { 2 } else { 1 };
-                        scenarios.push(sc);
                     }
                 }
             }
